@@ -72,6 +72,8 @@ func init() {
 		Harnesses: []harnessSpec{
 			{Pkg: "bklr", Func: "HarnessC17_required", Tiers: "qt", Covers: []string{"req.empty", "req.nonempty"},
 				Bound: "one document, maps over {a,b} of depth<=2 with lists<=2 (quick) / depth<=3 with lists<=1 (thorough); leaves: $required, any scalar (thorough: 7), or one 9-byte string that the solver may make equal to the marker ($-free otherwise)"},
+			{Pkg: "bklr", Func: "HarnessC17_reread", Tiers: "qt", Samples: 24, Covers: []string{"reread.checked"},
+				Bound: "bklr's output for 60 concrete small trees (markers at a value, a nested value, a list entry, or nowhere) written as yaml/json/json-pretty/toml and read back by the same codec: exactly one document, on which bklr changes nothing (the empty output included); codecs are the native boundary"},
 			{Pkg: "bklr", Func: "HarnessC17_listmarkers", Tiers: "qt", Covers: []string{"listmarkers.checked"},
 				Bound: "a lower-layer list of 1-3 entries, any subset of them markers, at the top or nested, with an upper layer supplying a list there: the layered document is the base's other entries + the upper's, bklr reports nothing, bkl accepts"},
 			{Pkg: "bklr", Func: "HarnessC17_nested", Tiers: "qt", Covers: []string{"req.empty", "req.nonempty"},
@@ -114,6 +116,8 @@ func init() {
 				Bound: "lower layer with $required at any subset of {map value, nested map value, list entry}; upper layer overriding any subset, mentioning the map without the marker, or appending a marker of its own to the list"},
 			{Pkg: "bkl", Func: "HarnessC07_hidden", Tiers: "qt", Covers: []string{"hidden.checked"},
 				Bound: "an unknown directive-shaped string (every such printable string <= 6 / 9 bytes) as value, key or list entry (next to $required) under $output: false"},
+			{Pkg: "bkl", Func: "HarnessC07_viaref", Tiers: "qt", Covers: []string{"viaref.checked"},
+				Bound: "a marker ($required, $delete, $bogus, $match) inside a hidden ($output: false) subtree, obtained by a visible value or key through a one-reference interpolation, a $merge:/$replace: string, a $replace map or an interpolated list entry: evaluation must fail; the marker's plain sibling comes through (control)"},
 			{Pkg: "bkl", Func: "HarnessC07_outputs", Tiers: "qt", Covers: []string{"outputs.accepted", "outputs.rejected"},
 				Bound: "the C06 skeleton (any $$-free printable string <= 3 / 5 bytes at one position, one of 25 directive names/shapes at a second) as an emitted subtree in 5 selection shapes: explicit $output:true map, the same below a hidden root, below a hidden inner map, a list selected by a marker entry below a hidden root, nested selections; every emitted document marker-free, a bare $required in it always an error"},
 			{Pkg: "bkl", Func: "HarnessC07_soup", Tiers: "qt", Covers: []string{"soup.output", "soup.error"},
